@@ -89,7 +89,12 @@ func genC01(r *Rng, tier string) *Plan {
 		} else if r.Chance(1, 3) {
 			fp.Point = "compressed" // as `openssl ec -conv_form compressed` leaves it (used for NIST curves only)
 		}
-		g.P.Add(Op{K: "replace-art", Ent: e.ID, Arg: fp.JSON(), Label: label + ":" + fp.Str + fp.Point})
+		if e.Issuer == "" && r.Chance(1, 8) {
+			// an imported issuer whose certificate has no subject at all (an empty SEQUENCE): its
+			// children then carry exactly that as issuer name
+			fp.Odd, fp.AltDN, fp.MultiRDN = "empty-subject", false, false
+		}
+		g.P.Add(Op{K: "replace-art", Ent: e.ID, Arg: fp.JSON(), Label: label + ":" + fp.Str + fp.Point + fp.Odd})
 		g.P.Meta["foreign"] = fp.Str
 	}
 	var roots, inner []*EntitySpec
